@@ -1580,6 +1580,18 @@ impl World for BuilderWorld {
             } else {
                 placements
             };
+            // cost bound, a pure function of the reference run: a placement costs about as many passes as the reference
+            // run (natural retries included), and with the pass-through disk every pass creates 2^log2_buckets real files
+            let weight = (o.key_passes.max(1) as usize)
+                * if case.offline && case.disk.as_ref().map(|d| d.passthrough).unwrap_or(false) { 1 + (1usize << case.log2_buckets.unwrap_or(8).min(12)) / 8 } else { 1 };
+            let max_placements = (60_000 / weight).max(12);
+            let placements: Vec<BuilderCase> = if !case.dup_sweep && placements.len() > max_placements {
+                out.probe("c17.cost_thinned_templates", 1);
+                let k = placements.len().div_ceil(max_placements);
+                placements.into_iter().step_by(k).collect()
+            } else {
+                placements
+            };
             out.probe("c17.placements", placements.len() as u64);
             out.probe("c17.templates", 1);
             for p in placements {
